@@ -290,7 +290,8 @@ class DimensionedItem:
 
         dim_from_value = list(arr.shape[1:])
         if self.dimension.value is not None:
-            if dim_from_value != self.dimension.value:
+            # scalar values ([] from the shape) have dimension [1] - the default set up at the first write
+            if dim_from_value != self.dimension.value and not (not dim_from_value and self.dimension.value == [1]):
                 raise RuntimeError(f"{self}: shape of {value_label} {value} (shape {arr.shape}) does not match "
                                    f"the specified dimensionality: {self.dimension.value}")
         else:
